@@ -2,6 +2,13 @@
 """Generate MANIFEST.json from props/*.json (claimed checks) and props/not_applicable.json."""
 import json, glob, os
 ROOT = os.path.dirname(os.path.dirname(os.path.abspath(__file__)))
+import subprocess
+def hook_commits():
+    try:
+        out = subprocess.run(["git", "-C", "/repo", "log", "--format=%H %s", "--grep", "^verif hook"], capture_output=True, text=True).stdout
+        return [l.split()[0] for l in out.splitlines() if l.strip()][::-1]
+    except Exception:
+        return []
 checks = []
 claimed = set()
 for p in sorted(glob.glob(os.path.join(ROOT, "props", "C*.json"))):
@@ -36,7 +43,7 @@ m = {
         "guard": "jj_vcs_jj_verif",
         "enable": "RUSTFLAGS=\"--cfg jj_vcs_jj_verif\" (set in /verif/harness/.cargo/config.toml; the harness crate builds /repo/lib, /repo/core, /repo/cli by path)",
         "baseline_off_cmd": "cd /repo && cargo nextest run --workspace --no-fail-fast --offline || cargo test --workspace --no-fail-fast --offline",
-        "source_commits": json.load(open(os.path.join(ROOT, "props", "hooks.json"))) if os.path.exists(os.path.join(ROOT, "props", "hooks.json")) else [],
+        "source_commits": hook_commits(),
         "add_only": True,
     },
     "engines": [{
